@@ -2,7 +2,8 @@
 """C11 — Semaphore and the two thread barriers: Coq theorems over all interleavings of the transition systems
 + trace correspondence (real tlx code under the deterministic scheduler shim vs. the extracted lstep/bstep/sstep)
 + direct property checkers on every real trace + analysis of every rest state (DEADLOCK) of the real code."""
-import json, os, sys
+import json, os, re, sys
+from concurrent.futures import ThreadPoolExecutor
 HERE = os.path.dirname(os.path.abspath(__file__))
 sys.path.insert(0, os.path.join(HERE, "..", "lib"))
 import verif
@@ -267,8 +268,13 @@ def py_sem_check(initial, blocks, trace):
 corpus = [l.strip() for l in open(os.path.join(verif.VERIF, "corpus", "C11", "cases.txt")) if l.strip() and not l.startswith("#")]
 corpus += [l.strip() for l in open(os.path.join(verif.VERIF, "corpus", "C11", "overflow_cases.txt")) if l.strip() and not l.startswith("#")]
 cases = list(corpus); modes = ["corpus"] * len(corpus)
+tsan_replay = None
 if ck.replay:
-    cases = [json.load(open(ck.replay))["case"]]; modes = ["replay"]
+    rc_ = json.load(open(ck.replay))["case"]
+    if rc_.startswith("tsan_stress"):
+        tsan_replay = dict(kv.split("=") for kv in rc_.split()[1:]); cases = []; modes = []
+    else:
+        cases = [rc_]; modes = ["replay"]
 else:
     NS, NB = (40000, 12000) if ck.thorough() else (2600, 700)
     for k in range(NS):
@@ -284,6 +290,28 @@ open(casefile, "w").write("\n".join(cases) + "\n")
 # ---------------------------------------------------------------- run both sides
 SHIM = os.path.join(verif.VERIF, "harness", "sched", "verif_sched.hpp")
 found = False
+# ---- real-thread stage under ThreadSanitizer (no shim): memory ordering, which the sequentially consistent Coq models cannot
+# express.  -DNDEBUG: an assert() reading an atomic with seq_cst would itself act as an acquire and hide a weakened order.
+# Built and run in a worker thread, concurrently with the trace stage.
+TSAN_FLAGS = ["-std=c++17", "-O1", "-g", "-w", "-fsanitize=thread", "-DNDEBUG"]
+def tsan_stage():
+    exe_t, log_t = ck.build_cpp("c11_tsan", ["harness/C11/tsan_stress.cpp"], TSAN_FLAGS)
+    if exe_t is None:
+        return {"build_log": log_t, "runs": []}
+    if tsan_replay: plans = [(tsan_replay["rounds"], tsan_replay["seed"], tsan_replay.get("scenario"), tsan_replay.get("round"))]
+    elif ck.replay: plans = []
+    else:
+        trng = verif.SplitMix64(ck.seed * 7919 + 11)
+        plans = [(450 if ck.thorough() else 90, str(1 + trng.below(1 << 30)), None, None) for _ in range(4 if ck.thorough() else 2)]
+    runs = []
+    for rounds, sd, osc, ornd in plans:
+        cmd = [exe_t, str(rounds), sd] + ([osc, ornd] if osc not in (None, "?") else [])
+        rct, outt = verif.sh(cmd, timeout=600 if ck.thorough() else 150, env=dict(os.environ, TSAN_OPTIONS="halt_on_error=0 report_signal_unsafe=0"))
+        runs.append({"rounds": rounds, "seed": sd, "scenario": osc, "rc": rct, "out": outt})
+        if "WARNING: ThreadSanitizer" in outt or "\nBAD " in "\n" + outt: break
+    return {"build_log": None, "runs": runs}
+pool = ThreadPoolExecutor(max_workers=2)
+f_tsan = pool.submit(tsan_stage)
 exe, log = ck.build_cpp("c11_harness", ["harness/C11/sync_harness.cpp"], extra=["-include", SHIM])
 drv, dlog = ck.ocaml_driver("C11")
 stats = {}
@@ -493,6 +521,41 @@ else:
         pick = [0, len(corpus), len(corpus) + 1, len(cases) - 2, len(cases) - 1]
         samples = [{"case": cases[i], "impl": impl[i][:400], "model": model[i] if i < len(model) else None} for i in sorted(set(pick)) if 0 <= i < len(impl)]
 
+# ---------------------------------------------------------------- real threads under ThreadSanitizer: collect
+SCEN = {"0": "ThreadBarrierMutex wait(lambda)+wait()", "1": "ThreadBarrierMutex wait_yield(lambda)+wait_yield()",
+        "2": "ThreadBarrierSpin wait(lambda)+wait()", "3": "ThreadBarrierSpin wait_yield(lambda)+wait_yield()",
+        "4": "ThreadBarrierMutex mixed wait/wait_yield", "5": "ThreadBarrierSpin mixed wait/wait_yield",
+        "6": "Semaphore signal()/wait() ping-pong", "7": "Semaphore signal(n) to several waiters", "8": "Semaphore try_acquire polling"}
+ts = f_tsan.result(); pool.shutdown()
+tsan_rounds = 0; tsan_runs = []; tsan_scen = {}
+if ts["build_log"] is not None:
+    ck.violation("ThreadSanitizer stress program does not compile against /repo", {"correspondence": "harness/C11/tsan_stress.cpp (-fsanitize=thread -DNDEBUG)", "log": ts["build_log"][-2000:]}, no_input=True)
+for run in ts["runs"]:
+    outt = run["out"]; rounds = run["rounds"]; sd = run["seed"]
+    done_r = [l.split() for l in outt.splitlines() if l.startswith("R ")]
+    for f in done_r: tsan_scen[SCEN.get(f[1], f[1])] = tsan_scen.get(SCEN.get(f[1], f[1]), 0) + 1
+    tsan_rounds += len(done_r); tsan_runs.append({"rounds": rounds, "seed": sd, "completed": len(done_r), "rc": run["rc"]})
+    i = outt.find("WARNING: ThreadSanitizer")
+    badl = [l for l in outt.splitlines() if l.startswith("BAD ")]
+    if i >= 0:
+        found = True
+        m = re.findall(r"^ROUND (\d+) (\d+) (\d+) (\d+)", outt[:i], flags=re.M)
+        scn, rnd_, thr_, gens_ = m[-1] if m else ("?", "?", "?", "?")
+        ck.violation("ThreadSanitizer reports a data race on plain data handed through the barrier / the semaphore (real threads): %s, round %s, %s threads, %s generations -- a crossing / a token does not order memory" % (SCEN.get(scn, scn), rnd_, thr_, gens_),
+                     {"case": "tsan_stress rounds=%s seed=%s scenario=%s round=%s" % (rounds, sd, scn, rnd_), "threads": thr_, "report": outt[i:i + 3500],
+                      "replay_cmd": "bin/check C11 --replay <this file>  (or: g++ -std=c++17 -O1 -g -fsanitize=thread -DNDEBUG -I/repo harness/C11/tsan_stress.cpp -lpthread; ./a.out %s %s %s %s)" % (rounds, sd, scn, rnd_)})
+    if badl:
+        found = True
+        f = badl[0].split(None, 4)
+        ck.violation("real-thread run: stale value after a barrier crossing / a semaphore hand-over: " + badl[0],
+                     {"case": "tsan_stress rounds=%s seed=%s scenario=%s round=%s" % (rounds, sd, f[1], f[2]), "threads": f[3], "all_bad": badl[:10]})
+    if i < 0 and not badl and (run["rc"] != 0 or (run["scenario"] in (None, "?") and len(done_r) != int(rounds))):
+        found = True
+        m = re.findall(r"^ROUND (\d+) (\d+) (\d+) (\d+)", outt, flags=re.M)
+        scn, rnd_ = (m[-1][0], m[-1][1]) if m else ("?", "?")
+        ck.violation("real-thread stress program failed or hung (rc=%d, %d of %s rounds; last round: %s round %s)" % (run["rc"], len(done_r), rounds, SCEN.get(scn, scn), rnd_),
+                     {"case": "tsan_stress rounds=%s seed=%s scenario=%s round=%s" % (rounds, sd, scn, rnd_), "log_tail": outt[-2500:]})
+
 # impl != model on some cases: if the search above produced a property-violating input, that is the report;
 # otherwise name the correspondence and the first disagreeing cases (decision rule 3)
 if corr_breaks and not found:
@@ -542,14 +605,16 @@ api_surface = [
 ck.finish({
     "correspondence_disagreements": len(corr_breaks),
     "api_surface": api_surface,
-    "evaluations": len(cases) - skipped,
+    "evaluations": len(cases) - skipped + tsan_rounds,
+    "tsan_rounds": tsan_rounds, "tsan_runs": tsan_runs, "tsan_scenarios": tsan_scen,
     "distinct_nontrivial": len(distinct),
     "traces_validated_against_impl": traces_ok + rest_states,
     "rest_states_analysed": rest_states,
-    "rule": "each case = one scenario (semaphore: initial value + per-thread call lists of signal()/signal(n)/wait(d,s)/try_acquire(d,s), 2-4 threads, equal or mixed delta/slack, 'completable' producer/consumer scenarios where any rest state is a violation and free scenarios where the rest state is analysed; barriers: n=1..4 threads x 1..4 generations, both classes, wait and wait_yield) run ONCE on the real tlx code under the deterministic scheduler with a PRNG schedule (uniform or sticky; spurious wake-ups on for half of the always-completable semaphore runs and half of the equal-generation mutex-barrier runs). The logged event trace is folded through the extracted Coq transition system (every event, atomic value, notify choice and returned value must be accepted), the direct checker (sem_check / bar_check) is evaluated on it, and every DEADLOCK exit is analysed from the component state printed by the on_deadlock hook. non-trivial = at least one thread blocked on the condition variable (a WB event) or, for the spin barrier, at least 2 participants; distinct = distinct (kind, event trace).",
+    "rule": "each case = one scenario (semaphore: initial value + per-thread call lists of signal()/signal(n)/wait(d,s)/try_acquire(d,s), 2-4 threads, equal or mixed delta/slack, 'completable' producer/consumer scenarios where any rest state is a violation and free scenarios where the rest state is analysed; barriers: n=1..4 threads x 1..4 generations, both classes, wait and wait_yield) run ONCE on the real tlx code under the deterministic scheduler with a PRNG schedule (uniform or sticky; spurious wake-ups on for half of the always-completable semaphore runs and half of the equal-generation mutex-barrier runs). The logged event trace is folded through the extracted Coq transition system (every event, atomic value, notify choice and returned value must be accepted), the direct checker (sem_check / bar_check) is evaluated on it, and every DEADLOCK exit is analysed from the component state printed by the on_deadlock hook. non-trivial = at least one thread blocked on the condition variable (a WB event) or, for the spin barrier, at least 2 participants; distinct = distinct (kind, event trace). In addition a real-thread stage (harness/C11/tsan_stress.cpp, no shim, -fsanitize=thread -DNDEBUG, tsan_rounds rounds): 2-4 std::threads cross each barrier class 6-16 times per round with wait(lambda)/wait()/wait_yield(lambda)/wait_yield() (uniform and mixed callers), every thread writes a plain slot before the barrier, the action sums the slots into a plain variable, every released thread reads the sum and a neighbour's slot; semaphores hand plain payload from signaller to waiter (signal()/wait() ping-pong, one signal(n) to several wait()/wait(d,s) callers with the answers collected by wait(n), try_acquire polling). Any ThreadSanitizer report or stale value is a violation with the scenario/round as replay.",
     "samples": samples,
     "input_distribution": stats,
 }, assumptions=[
+    "memory orders (acquire/release of ThreadBarrierSpin, the mutex hand-over of Semaphore and ThreadBarrierMutex) are NOT part of the Coq models (sequentially consistent): 'the action runs before anyone is released' and 'tokens handed over' as happens-before edges on plain data are covered ONLY by the run-time ThreadSanitizer stage (real threads, both tiers), i.e. by sampling",
     "std::mutex / std::condition_variable / std::atomic / this_thread::yield are the scheduler shim's (harness/sched/verif_sched.hpp): one event per operation, atomics sequentially consistent (acquire/release orders of ThreadBarrierSpin are outside the model)",
     "non-atomic reads/writes of value_, counts_[], step_ inside a critical section are attached to the thread's next shim event (no other thread can observe them while the mutex is held)",
     "size_t arithmetic modelled on nat: no overflow of delta+slack or of the token count; barriers are used by exactly thread_count participants, thread_count >= 1",
